@@ -64,3 +64,56 @@ class ParentB:
 
     c: Optional[Plain] = field(default=None, metadata={"type": "Element"})
     attrs: Dict[str, str] = field(default_factory=dict, metadata={"type": "Attributes", "namespace": "##other"})
+
+
+@dataclass
+class UA:
+    class Meta:
+        global_type = False
+
+    x: Optional[int] = field(default=None, metadata={"type": "Element"})
+
+
+@dataclass
+class UB:
+    class Meta:
+        global_type = False
+
+    y: Optional[int] = field(default=None, metadata={"type": "Element"})
+
+
+from typing import Union  # noqa: E402
+
+
+@dataclass
+class UnionDoc:
+    class Meta:
+        name = "udoc"
+        namespace = "urn:t"
+
+    u: Optional[Union[UA, UB]] = field(default=None, metadata={"type": "Element"})
+    count: Optional[int] = field(default=None, metadata={"type": "Attribute"})
+
+
+class Ratio(float):
+    """A float subclass without a registered converter of its own."""
+
+
+@dataclass
+class AnyBox:
+    class Meta:
+        name = "anybox"
+        namespace = "urn:t"
+
+    value: Optional[object] = field(default=None, metadata={"type": "Element"})
+
+
+@dataclass
+class RatioBox:
+    """Field typed with the float subclass: documented as unsupported on a pristine converter."""
+
+    class Meta:
+        name = "ratiobox"
+        global_type = False
+
+    r: Optional[Ratio] = field(default=None, metadata={"type": "Element"})
